@@ -58,7 +58,11 @@ def main():
         results = list(pool.map(lambda w: run_one(*w), work))
     for r in results:
         print('%-8s %-55s %s %s' % (r['property'], r['mutant'], r['result'], ','.join(r.get('keys', []))[:150]))
-    out = os.path.join(VERIF, 'selftest_results', ('seeded' if seeded else 'mutants') + ('-' + '-'.join(args) if args else '') + '.json')
+    tag = '-'.join(args)
+    if len(tag) > 60:
+        import hashlib
+        tag = '%d-items-%s' % (len(args), hashlib.sha256(tag.encode()).hexdigest()[:8])
+    out = os.path.join(VERIF, 'selftest_results', ('seeded' if seeded else 'mutants') + ('-' + tag if args else '') + '.json')
     os.makedirs(os.path.dirname(out), exist_ok=True)
     json.dump(results, open(out, 'w'), indent=1)
     bad = [r for r in results if r['result'] != 'killed' and not r['result'].startswith('survived(as judged')]
